@@ -216,12 +216,18 @@ type Stack = tracing_subscriber::subscribe::Layered<
     tracing_subscriber::subscribe::Layered<RecLayer, tracing_subscriber::subscribe::Layered<RecLayer, Registry>>,
 >;
 
-fn mk_stack(log: Arc<LayerLog>) -> Dispatch {
+/// `how` (mod 3): the stack is handed to `Dispatch::new` as itself, behind `Arc`, or behind `Box`
+/// (tracing-core's `Collect` implementations for the pointers forward every method).
+fn mk_stack(log: Arc<LayerLog>, how: u64) -> Dispatch {
     let s: Stack = Registry::default()
         .with(RecLayer { layer: 0, log: log.clone() })
         .with(RecLayer { layer: 1, log })
         .with(ErrorSubscriber::default());
-    Dispatch::new(s)
+    match how % 3 {
+        0 => Dispatch::new(s),
+        1 => Dispatch::new(Arc::new(s)),
+        _ => Dispatch::new(Box::new(s)),
+    }
 }
 
 // ---------------------------------------------------------------------------------------------
@@ -1190,7 +1196,8 @@ pub fn run_history(seed: u64, idx: u64, fresh: Arc<Fresh>, w: Weights, max_ops: 
     let mut r0 = Rng::derive(seed, 0xC05A, idx);
     let nthreads = 1 + r0.usize(3);
     let logs: Vec<Arc<LayerLog>> = (0..2).map(|_| Arc::new(LayerLog::default())).collect();
-    let disp: Vec<Dispatch> = logs.iter().map(|l| mk_stack(l.clone())).collect();
+    let how0 = r0.below(3);
+    let disp: Vec<Dispatch> = logs.iter().enumerate().map(|(i, l)| mk_stack(l.clone(), how0 + i as u64)).collect();
     let world = Arc::new(Mutex::new(World {
         disp,
         logs,
@@ -1300,5 +1307,6 @@ pub fn run_history(seed: u64, idx: u64, fresh: Arc<Fresh>, w: Weights, max_ops: 
 #[allow(dead_code)]
 pub fn mk_stack_pub() -> (Dispatch, Arc<LayerLog>) {
     let log = Arc::new(LayerLog::default());
-    (mk_stack(log.clone()), log)
+    static HOW: std::sync::atomic::AtomicU64 = std::sync::atomic::AtomicU64::new(0);
+    (mk_stack(log.clone(), HOW.fetch_add(1, std::sync::atomic::Ordering::Relaxed)), log)
 }
